@@ -11,6 +11,8 @@ def wellformed(r):
         if isinstance(x, str):
             return x in ('same', 'Set', 'TreeSet', 'Bucket', 'BTree', 'bool')
         return isinstance(x, int) and not isinstance(x, bool)
+    if r['fn'] in ('ror', 'rand', 'rsub', 'rxor') and r['got'] == ['exc', 'TypeError']:
+        return True         # a plain iterable on the left of an operator may be rejected
     return ok(r['got'])
 
 
